@@ -56,7 +56,7 @@ class Gen:
 
     def cmd(self, in_chain, rightmost, fl, last_stmt):
         r = self.rng
-        rc = r.choice([0, 0, 0, 1, 1, 2, 3])
+        rc = r.choice([0, 0, 0, 0, 1, 1, 2, 3, 109, 115])  # >= 100: killed by signal rc-100 (returncode -9 / -15)
         form = r.choice(["hidden", "hidden", "hidden", "object", "stdout", "uncaptured"])
         if not self.allow_findings and in_chain and form in ("stdout", "uncaptured"):
             form = "hidden"
@@ -69,7 +69,7 @@ class Gen:
             if not demanded and not last_stmt:
                 form = "hidden"
         prints = form in ("stdout", "object") and r.random() < 0.5
-        py = form == "hidden" and dec == "none" and r.random() < 0.25
+        py = form == "hidden" and dec == "none" and rc < 100 and r.random() < 0.25
         early, inject = [], []
         if not py and r.random() < 0.2:
             early = [self.fresh() for _ in range(r.randint(1, 2))]
@@ -111,19 +111,25 @@ def render_cmd(c, rng, real, explicit=False):
     d = {"none": "", "raise": "@error_raise ", "ignore": "@error_ignore "}[dec]
     if real:
         wait = "cat > /dev/null; " if early else ""  # a stage logs only after the previous one has finished
-        body = d + f'sh -c "{wait}echo {name(i)} >> $XV_LOG; {"echo x; " if prints else ""}exit {rc}"'
+        if rc >= 100:
+            body = d + f"xvkill {name(i)} {'p' if prints else 'n'} {'w' if early else 'n'} {rc - 100}"
+        else:
+            body = d + f'sh -c "{wait}echo {name(i)} >> $XV_LOG; {"echo x; " if prints else ""}exit {rc}"'
         pre = "".join(
             f'sh -c "{"cat > /dev/null; " if k else ""}echo {name(e)} >> $XV_LOG; exit {rng.choice([0, 1])}" | ' for k, e in enumerate(early)
         )
     else:
-        body = d + f"t {name(i)} {rc} {'p' if prints else 'n'}"
+        body = d + f"t {name(i)} {rc if rc < 100 else -(rc - 100)} {'p' if prints else 'n'}"
         pre = "".join(f"{rng.choice(['', '', '@error_raise ', '@error_ignore '])}t {name(e)} {rng.choice([0, 1, 2])} p | " for e in early)
     for j, jrc, jdec in inject:
         jd = {"none": "", "raise": "@error_raise ", "ignore": "@error_ignore "}[str(jdec)]
+        # injected two ways: `@$(cmd)` (subproc_captured_inject) or `@($(cmd))` (subproc_captured_stdout inside a Python
+        # expression) — both helpers must raise by themselves when the inner command failed
+        op, cl = ("@$(", ")") if rng.random() < 0.5 else ("@($(", "))")
         if real:
-            body += f' @$({jd}sh -c "echo {name(j)} >> $XV_LOG; echo x; exit {jrc}")'
+            body += f' {op}{jd}sh -c "echo {name(j)} >> $XV_LOG; echo x; exit {jrc}"{cl}'
         else:
-            body += f" @$({jd}t {name(j)} {jrc} p)"
+            body += f" {op}{jd}t {name(j)} {jrc} p{cl}"
     text = pre + body
     if form == "hidden":
         return text if (rng.random() < 0.5 and not explicit) else f"![{text}]"
@@ -143,6 +149,17 @@ _SESSION = {}
 LOG = []
 
 
+def ensure_bindir():
+    """a helper command that logs and then dies of a signal (returncode -N)"""
+    bindir = str(common.scratch_root() / "c05bin")
+    if not os.path.exists(os.path.join(bindir, "xvkill")):
+        os.makedirs(bindir, exist_ok=True)
+        with open(os.path.join(bindir, "xvkill"), "w") as kf:
+            kf.write('#!/bin/sh\n[ "$3" = w ] && cat > /dev/null\necho "$1" >> "$XV_LOG"\n[ "$2" = p ] && echo x\nkill -$4 $$\n')
+        os.chmod(os.path.join(bindir, "xvkill"), 0o755)
+    return bindir
+
+
 def session():
     if _SESSION:
         return _SESSION["execer"]
@@ -155,7 +172,7 @@ def session():
     env = XSH.env
     env["XONSH_SHOW_TRACEBACK"] = False
     env["XONSH_CAPTURE_ALWAYS"] = False
-    env["PATH"] = ["/usr/bin", "/bin"]
+    env["PATH"] = [ensure_bindir(), "/usr/bin", "/bin"]
     env["XONSH_INTERACTIVE"] = False
 
     def t(args, stdin=None, stdout=None, stderr=None):
@@ -227,24 +244,29 @@ def run_impl(src, fl, real=False):
     out = None
     devnull = open(os.devnull, "w")
     old_out = sys.stdout
+    old_err = sys.stderr
     try:
         with XSH.env.swap(**swap):
             sys.stdout = devnull
+            sys.stderr = devnull  # (xonsh reports "Killed" / "Terminated" for signal deaths there)
             try:
                 execer.exec(src + "\n", glbs={"__name__": "xv"}, locs=None, filename="<c05>")
             except subprocess.CalledProcessError as e:
                 cmd = [a for a in e.cmd if not a.startswith("@error")]
                 if real and cmd and cmd[0] == "sh":
                     who = cmd[2].split()[cmd[2].split().index("echo") + 1] if len(cmd) > 2 else "?"
+                elif real and cmd and cmd[0] == "xvkill":
+                    who = cmd[1] if len(cmd) > 1 else "?"
                 else:
                     who = cmd[1].lstrip("-") if len(cmd) > 1 else "?"
-                out = [e.returncode, who]
+                out = [e.returncode if e.returncode >= 0 else 100 - e.returncode, who]
             except SyntaxError as e:
                 out = ["syntax", str(e)[:100]]
             except BaseException as e:  # noqa: BLE001
                 out = ["other", f"{type(e).__name__}: {e}"[:160]]
             finally:
                 sys.stdout = old_out
+                sys.stderr = old_err
             # a !() nobody asked about ends here, outside the statement
             lc = XSH.lastcmd
             if lc is not None:
@@ -254,6 +276,7 @@ def run_impl(src, fl, real=False):
                     pass
     finally:
         sys.stdout = old_out
+        sys.stderr = old_err
         devnull.close()
     for th in threading.enumerate():
         if th is not threading.current_thread() and type(th).__name__ in ("ProcProxyThread", "PopenThread"):
@@ -496,7 +519,7 @@ def stream_exit_status(ctx, n, name_="exit-status"):
         _, spec_m, _ = model(ctx, prog, fl)
         logf = str(root / f"c05-exit-{k}.log")
         open(logf, "w").close()
-        env = {"PATH": "/usr/bin:/bin", "HOME": str(root), "XV_LOG": logf, "XONSH_SUBPROC_RAISE_ERROR": "1" if fl[0] else "0",
+        env = {"PATH": ensure_bindir() + ":/usr/bin:/bin", "HOME": str(root), "XV_LOG": logf, "XONSH_SUBPROC_RAISE_ERROR": "1" if fl[0] else "0",
                "XONSH_SUBPROC_CMD_RAISE_ERROR": "1" if fl[1] else "0", "PYTHONPATH": str(common.REPO), "XONSH_DATA_DIR": str(root), "XONSH_CACHE_DIR": str(root),
                "XONSH_HISTORY_BACKEND": "dummy", "TERM": "dumb"}
         as_script = ctx.rng.random() < 0.5
